@@ -61,3 +61,11 @@ def distribution(outs):
             v = int(i["v"])
             d["value_canonical" if (v < 2**64 or 2**64 <= v < 2**64 + 2**32) else "value_noncanonical"] += 1
     return d
+
+LEVEL_TEXT = ("Kernel-checked theorems for ALL 2 x 2^32 x 2^32 triples and all canonical 256-bit values: decode(encode t) = canon t, "
+              "encode has the contract bit layout, closed form of the decoder on any uint256, and all four consumers (certificate, "
+              "signed commitment, wire message, prover request, optimistic commitment) carry the same number. The byte-level model is tied "
+              "to the Go functions by running both on thousands of inputs per run (boundaries exhaustively).")
+LEVEL_NOTE = ("Trusted: Coq kernel + vm_compute, the hand transcription of GenerateGlobalIndex/DecodeGlobalIndex/BigIntToLittleEndianBytes "
+              "(validated by the correspondence), tools/gofacts for the two size constants, big.Int and protobuf structs below the Value bytes.")
+TECHNIQUE = "Coq proof (arithmetic over byte strings, no finite sweep) + differential correspondence via vm_compute"
